@@ -505,7 +505,12 @@ func init() {
 		NoThreads:   true,
 		Rule:        "all histories of the bound over {4 inserts (two keys, two periods, one filtered out of the second table: offset-only flush path), Flush(t1), FlushAll, clean Restart} on two tables of one stream, started from the empty directory and from a non-initial state (insert, FlushAll, filtered insert, FlushAll: data files exist and t2's offset file is ahead of its data file); at every hit of each of 17 instrumented steps (WAL write before/after, memstore applied, entry done, flush temp/written/synced/closed/renamed/swapped, offset file start/written/synced/closed/renamed, old-file removal before/after) the data directory is copied; every distinct image (by normalised content hash) plus 6 torn-tail length classes of the in-flight WAL entry is recovered with a fresh DB to exact quiescence and compared with the reference model of the acknowledged inserts (in-flight insert: 0 or 1 times); thorough recovers a second time after the clean close; quick also runs a real child process that exits inside the hook and compares its directory with the image; evaluations = recoveries, non-trivial = distinct images",
 		Assumptions: []string{"process-kill model: the page cache survives, so no unsynced-block subsets", "kill instants inside the wal package other than the torn-tail classes are not represented", "images are taken while other table actors may still be running non-hooked code; every rename is atomic, so each image is a state that existed"},
-		Shards:      func(tier string) int { return 16 },
+		Shards: func(tier string) int {
+			if tier == "thorough" {
+				return 32 // short-lived workers: every closed zenodb instance leaves goroutines and buffers behind
+			}
+			return 16
+		},
 		Budget: func(tier string) time.Duration {
 			if tier == "thorough" {
 				return 50 * time.Minute
